@@ -8,7 +8,7 @@ use crate::{Outcome, Tier};
 use serde_json::{json, Value};
 use std::collections::{BTreeMap, VecDeque};
 
-const TARGETS: [&str; 5] = ["m", "e", "L", "sub/e", "z"]; // missing, existing shorter, existing longer, in a subdirectory, existing EMPTY
+const TARGETS: [&str; 6] = ["m", "e", "L", "sub/e", "z", "nodir/m"]; // missing, existing shorter, existing longer, in a subdirectory, existing EMPTY, missing in a missing directory
 
 fn optsets() -> Vec<Vec<(String, String)>> {
     vec![vec![], vec![("blksize".into(), "8".into())], vec![("tsize".into(), "0".into()), ("windowsize".into(), "2".into())]]
@@ -136,6 +136,12 @@ fn apply(srv: &Srv, cfg: &SrvCfg, before: &Tree, a: &Action, depth: usize, aidx:
                 viol.push(("exists-changed-disk".into(), format!("{desc}: refused write changed the tree: {:?}", d)));
             }
             refusal_checks(&mut viol, &desc, &r.sources, listen_port);
+        } else if name.starts_with("nodir/") {
+            // the target's directory does not exist: the statement neither demands acceptance nor a particular refusal; only
+            // "nothing else changes" is checked
+            if !d.is_empty() {
+                viol.push(("write-collateral".into(), format!("{desc}: an upload into a missing directory changed the tree: {:?}", d)));
+            }
         } else {
             transferred = true;
             // accepted upload: the file holds exactly the payload afterwards, nothing else changed
